@@ -6,6 +6,7 @@ package servicediscovery
 // Leader-assigned numbering: leader = 1, followers 2.. in join order; announce only on change (C10).
 
 //@ func (*serviceDiscovery).SetInfo
+//@ params s memberNumber totalMembers
 //@ props C10 C11
 //@ requires s != nil && s.bus != nil && logger.Log != nil
 //@ let changed = old(s.info) == nil || old(s.info.MemberNumber) != memberNumber || old(s.info.TotalMembers) != totalMembers
@@ -15,6 +16,7 @@ package servicediscovery
 //@ modifies s.info, calls(EventBus.Bus.Publish)
 
 //@ func (*serviceDiscovery).GetAll
+//@ params s
 //@ props C10
 //@ trusted
 //@ requires s != nil
@@ -26,6 +28,7 @@ package servicediscovery
 //@ modifies nothing
 
 //@ func (*serviceDiscovery).StartMonitor$1
+//@ freevars s
 //@ props C10
 //@ requires s != nil && s.config != nil && s.bus != nil && s.services != nil && logger.Log != nil
 //@ let R = servicediscovery.Client.Rebalance
@@ -48,6 +51,7 @@ package servicediscovery
 
 // A (re-)registering follower replaces the entry held for its name: the leader talks to the newest connection (C10).
 //@ func (*serviceDiscovery).Add
+//@ params s service
 //@ props C10
 //@ requires s != nil && s.services != nil && service != nil
 //@ ensures.registered[C10] has(s.services, service.Name) && s.services[service.Name] == service
@@ -55,6 +59,7 @@ package servicediscovery
 //@ modifies content(s.services)
 
 //@ func (*serviceDiscovery).Remove
+//@ params s name
 //@ props C10
 //@ requires s != nil && s.services != nil
 //@ requires forall n string :: has(s.services, n) ==> s.services[n] != nil && s.services[n].Client != nil
